@@ -82,6 +82,20 @@ pub fn gen_case(rng: &mut Rng, flavour: Flavour, thorough: bool) -> ModelCase {
     weights,
   };
   let mut ops = gen_ops(rng, &cfg, &p);
+  if storage == StorageKind::Fs && !cfg.profile.compact_unsafe() && rng.chance(1, 3) {
+    // histories with occasional storage errors: state cached across a failed
+    // call must not poison what follows
+    for op in ops.iter_mut() {
+      if matches!(op, Op::Commit { .. } | Op::Compact) && rng.chance(1, 3) {
+        let inner = Box::new(op.clone());
+        *op = Op::Faulty {
+          inner,
+          at: rng.below(110) as u32,
+          kind: if rng.chance(1, 2) { "eio_before".into() } else { "eio_after".into() },
+        };
+      }
+    }
+  }
   if flavour == Flavour::C14 {
     // histories end in a compaction
     ops.push(Op::Compact);
@@ -401,6 +415,50 @@ pub fn run_case(case: &ModelCase, wroot: &Path, flavour: Flavour, stats: &mut St
           format!("opening the copied index at {} failed: {}", root.display(), o.short())
         ),
       }
+    } else if let Op::Faulty { inner, at, kind } = op {
+      let Some(fs) = &fs else { continue };
+      if !session.applicable(inner) || cfg.profile.compact_unsafe() {
+        continue;
+      }
+      let Some(fk) = crate::simfs::FaultKind::parse(kind) else { continue };
+      let props: Vec<&'static str> = {
+        let mut p: Vec<&'static str> = vec!["C03", "C04"];
+        if relocated {
+          p.push("C28");
+        }
+        p
+      };
+      fs.arm(vec![crate::simfs::Fault { at: *at as u64, kind: fk }]);
+      let first = session.exec(inner);
+      let fired = fs.with(|c| !c.fired.is_empty());
+      fs.disarm();
+      if fired {
+        stats.inc(&format!("fault.{}", kind));
+        stats.inc(if first.is_ok() { "probe.faulted_call_succeeded" } else { "probe.faulted_call_failed_then_retried" });
+      }
+      if let Outcome::Panic(p) = &first {
+        violate!(&props, "panic", "faulty", step, format!("{} panicked: {}", op.short(), p));
+      }
+      if !first.is_ok() {
+        let again = session.exec(inner);
+        if !again.is_ok() {
+          violate!(
+            &props,
+            "retry-failed",
+            inner.kind(),
+            step,
+            format!("{} failed ({}); re-issuing it with healthy storage -> {}", op.short(), first.short(), again.short())
+          );
+        }
+      }
+      match inner.as_ref() {
+        Op::Commit { h } => model.commit(*h),
+        Op::Compact => {
+          let _ = model.compact();
+        }
+        _ => {}
+      }
+      out.trace.push(format!("{} faulty {} -> {}", step, inner.kind(), if first.is_ok() { "ok" } else { "retried" }));
     } else {
       if !session.applicable(op) {
         out.trace.push(format!("{} {} skipped", step, op.kind()));
@@ -568,7 +626,7 @@ pub fn run_case(case: &ModelCase, wroot: &Path, flavour: Flavour, stats: &mut St
             violate!(&props, "call-failed", "open_reader", step, format!("reader() -> {}", outcome.short()));
           }
         }
-        Op::CheckReader { .. } | Op::Relocate { .. } => {}
+        Op::CheckReader { .. } | Op::Relocate { .. } | Op::Faulty { .. } => {}
       }
     }
     // ---- kept readers keep their snapshot
